@@ -609,7 +609,7 @@ func build(tier string) []*vkit.Scenario {
 func main() {
 	vkit.Main(&vkit.Spec{
 		Property: "C19", Level: "model_checking",
-		Rule: "one scenario = (pool size N, queue size Q, default/custom caller, submitters x tasks, panic position, Stop yes/no) or a capacity scenario (overload burst, drain, then cap0 mutually waiting tasks) or a timer.Async scenario (producers x functions, one panics); every interleaving within the preemption bound of the real taskpool/timer code (channels, atomics and mutexes scheduled) is executed; non-trivial = tasks really ran in parallel / the barrier was reached / an Async function was run by a drainer other than its producer's call",
+		Rule: "one scenario = (pool size N, queue size Q, default/custom caller, submitters x tasks, panic position, Stop yes/no) or a stop-with-backlog scenario (every runner held by a parked task, N+1 / N+3 parked tasks queued, Stop, two release gates) or a capacity scenario (overload burst, drain, then cap0 mutually waiting tasks) or a timer.Async scenario (producers x functions, one panics); every interleaving within the preemption bound of the real taskpool/timer code (channels, atomics and mutexes scheduled) is executed; non-trivial = tasks really ran in parallel / the barrier was reached / an Async function was run by a drainer other than its producer's call",
 		Assumptions: []string{
 			"exactly-once is required only of tasks handed to a pool that is not stopped in the scenario; with Stop only at-most-once and termination of Go are required",
 			"capacity oracle is differential (fresh pool vs. the same pool after an overload burst has drained); no hand-written capacity number",
